@@ -101,6 +101,11 @@ Theorem C02_plan_loads_cover : forall p, plan_reads_covered (optimize p) (plan_o
 Proof. intros p. apply plan_analysis_covers. Qed.
 Print Assumptions C02_plan_loads_cover.
 
+(* programs with statements outside the C01 alphabet (aggregate, set, increment, jump, mark, null-producing moves) *)
+Theorem C02_x_loads_cover : forall p, x_reads_covered p (x_outputs p) = true.
+Proof. exact x_analysis_covers. Qed.
+Print Assumptions C02_x_loads_cover.
+
 (* a name marked twice: the read between the two marks keeps the first step loaded; an unread step is elided *)
 Example C02_loads_nonvacuous :
   let p := [SV []; SAs "m"; SOut []; SHas (HCond "$m.name" CEq (JStr "x")); SOut []; SAs "m"; SOut []; SCount] in
